@@ -1,6 +1,6 @@
 (* C12 - Revocation results are complete, positional and internally consistent.
    Statements only; proofs in Proofs/Revocation.v. *)
-From NCG Require Import Model.Revocation Proofs.Ocsp Proofs.CrlCheck Proofs.Revocation Run.RevSpec Proofs.ReflectRev Proofs.SpecAcceptsModel.
+From NCG Require Import Model.Revocation Proofs.Ocsp Proofs.CrlCheck Proofs.Revocation Run.RevSpec Proofs.ReflectRev Proofs.SpecAcceptsModel Run.C12.
 
 (* exactly one result per certificate, in chain order, slot i describing certificate i; the root
    slot is NonRevokable; an empty or non-conforming chain gives the invalid-chain error and no results *)
@@ -54,3 +54,7 @@ Print Assumptions C12_checked_standalone_consistency.
 Theorem C12_spec_side_accepts_model : forall w st c, consistent_b c (fst (check_cert w st c)) = true.
 Proof. exact model_result_consistent. Qed.
 Print Assumptions C12_spec_side_accepts_model.
+
+Theorem C12_spec_side_clause8_accepts_model : forall w st c, lone_unknown_not_decisive w st c (fst (check_cert w st c)) = false.
+Proof. exact model_never_lone_nondecisive_unknown. Qed.
+Print Assumptions C12_spec_side_clause8_accepts_model.
